@@ -19,7 +19,7 @@ type Event struct {
 	Results  []Value
 	Panicked bool
 	Index    int
-	Heap     map[string]Term // lock / recv events: the heap right after the event (for at(event, e))
+	Heap     map[string]Term // lock / recv events: the heap right after the event; opaque calls: the heap the callee saw (for at(event, e))
 }
 
 type deferred struct {
